@@ -138,6 +138,8 @@ package httpgen
 //@   modifies *
 //@   at-call convertStringToFieldValue requires from_url: 0 <= _i1 && _i1 < len(params) && arg0 == r.PathValue(params[_i1].URLParam) && arg0 != ""
 //@   at-call reflect.Set requires converted_value: count("convertStringToFieldValue") > old(count("convertStringToFieldValue")) && lastErrNil("convertStringToFieldValue") && arg1 == lastRetAs("convertStringToFieldValue", protoreflect.Value)
+//@   at-call reflect.Set requires into_the_configured_field: 0 <= _i1 && _i1 < len(params) && arg0 == msg.ProtoReflect().Descriptor().Fields().ByName(protoreflect.Name(params[_i1].FieldName))
+//@   at-call convertStringToFieldValue requires by_the_kind_of_that_field: arg1 == msg.ProtoReflect().Descriptor().Fields().ByName(protoreflect.Name(params[_i1].FieldName)).Kind()
 //@   ensures accepted_means_all_present: verr == nil ==> (forall k int :: 0 <= k && k < len(params) ==> r.PathValue(params[k].URLParam) != "")
 //@   loop 1 invariant forall k int :: 0 <= k && k < _i1 ==> r.PathValue(params[k].URLParam) != ""
 //@ emitted func bindQueryParams(r *nethttp.Request, msg proto.Message, params []QueryParamConfig) (verr *sebufhttp.ValidationError)
@@ -146,6 +148,8 @@ package httpgen
 //@   loop 1 invariant forall k int :: 0 <= k && k < _i1 && params[k].Required ==> len(query[params[k].QueryName]) > 0
 //@   at-call reflect.Set requires converted_value: count("convertStringToFieldValue") > old(count("convertStringToFieldValue")) && lastErrNil("convertStringToFieldValue") && arg1 == lastRetAs("convertStringToFieldValue", protoreflect.Value)
 //@   at-call reflect.Append requires converted_value: count("convertStringToFieldValue") > old(count("convertStringToFieldValue")) && lastErrNil("convertStringToFieldValue") && arg0 == lastRetAs("convertStringToFieldValue", protoreflect.Value)
+//@   at-call reflect.Set requires into_the_configured_field: 0 <= _i1 && _i1 < len(params) && arg0 == msg.ProtoReflect().Descriptor().Fields().ByName(protoreflect.Name(params[_i1].FieldName))
+//@   at-call convertStringToFieldValue requires from_the_query_and_by_kind: 0 <= _i1 && _i1 < len(params) && arg1 == msg.ProtoReflect().Descriptor().Fields().ByName(protoreflect.Name(params[_i1].FieldName)).Kind() && len(r.URL.Query()[params[_i1].QueryName]) > 0 && (!msg.ProtoReflect().Descriptor().Fields().ByName(protoreflect.Name(params[_i1].FieldName)).IsList() ==> arg0 == r.URL.Query()[params[_i1].QueryName][0])
 //@ emitted func bindDataBasedOnContentType(r *nethttp.Request, toBind any) (err error)
 //@   modifies *
 //@   ensures one_decoder: (count("bindDataFromJSONRequest") - old(count("bindDataFromJSONRequest"))) + (count("bindDataFromBinaryRequest") - old(count("bindDataFromBinaryRequest"))) == 1
